@@ -15,6 +15,7 @@ import ast
 
 from sa import mutate as M
 from sa.consts import UNKNOWN
+from sa import pattern as PT
 from sa.ctx import Ctx
 from sa.loader import AnalysisError, call_name, norm, own_nodes, parent
 from sa.ranges import has, has_bound, refusal_constraints
@@ -53,11 +54,11 @@ def rule_checksum_gate(ctx: Ctx, rep: Report) -> None:
     rep.ob(rule, "INPUT_CHARSET", ctx.const(DS, "INPUT_CHARSET") == "0123456789()[],'/*abcdefgh@:$%{}IJKLMNOPQRSTUVWXYZ&+-.;<=>?!^_|~ijklmnopqrstuvwxyzABCDEFGH`#\"\\ ", where, "BIP380 input charset")
     rep.ob(rule, "CHECKSUM_CHARSET", ctx.const(DS, "CHECKSUM_CHARSET") == "qpzry9x8gf2tvdw0s3jn54khce6mua7l", where, "BIP380 checksum charset")
     rep.ob(rule, "GENERATOR", ctx.const(DS, "GENERATOR") == [0xF5DEE51989, 0xA9FDCA3312, 0x1BAB10E32D, 0x3706B1677A, 0x644D626FFD], where, "BIP380 generator")
-    pm = norm(ctx.func(f"{DS}.__descsum_polymod").node)
+    pm = PT.text(ctx.func(f"{DS}.__descsum_polymod"))
     rep.ob(rule, "polymod_shape", "top = chk >> 35" in pm and "chk = (chk & 34359738367) << 5 ^ value" in pm and "chk ^= GENERATOR[i] if top >> i & 1 else 0" in pm, ctx.func(f"{DS}.__descsum_polymod").where(), "BIP380 PolyMod")
-    xp = norm(ctx.func(f"{DS}.__descsum_expand").node)
+    xp = PT.text(ctx.func(f"{DS}.__descsum_expand"))
     rep.ob(rule, "expand_shape", "symbols.append(index & 31)" in xp and "groups.append(index >> 5)" in xp and "groups[0] * 9 + groups[1] * 3 + groups[2]" in xp and "groups[0] * 3 + groups[1]" in xp, ctx.func(f"{DS}.__descsum_expand").where(), "BIP380 symbol expansion")
-    ck = norm(ctx.func(f"{DS}.checksum").node)
+    ck = PT.text(ctx.func(f"{DS}.checksum"))
     rep.ob(rule, "checksum_shape", "0, 0, 0, 0, 0, 0, 0, 0]" in ck and "^ 1" in ck and "polymod >> 5 * (7 - i) & 31" in ck.replace("(polymod >> 5 * (7 - i))", "polymod >> 5 * (7 - i)") and "range(8)" in ck, ctx.func(f"{DS}.checksum").where(), "eight zero symbols, xor 1, eight 5-bit groups")
     xe = ctx.func(f"{DS}.__descsum_expand")
     rep.ob(rule, "expand:invalid_char_refused", any(c.subject == "index" and c.op == "==" and c.value == -1 for c in refusal_constraints(ctx, xe)), xe.where(), "a character outside the charset is refused")
@@ -102,7 +103,7 @@ def rule_grammar(ctx: Ctx, rep: Report) -> None:
     rep.floor(rule, 40)
     # tree functions only inside tr(); miniscript only in wsh / tr leaves
     pe = ctx.func(f"{DS}._parse_expression")
-    txt = norm(pe.node)
+    txt = PT.text(pe)
     rep.ob(rule, "tree_functions_in_tr_only", "if name in _TREE_FUNCTIONS: _assert_position(name, context, (_P2TR,))" in txt, pe.where(), "multi_a / sortedmulti_a only inside tr()")
     rep.ob(rule, "miniscript_contexts", ctx.const(DS, "_TREE_FUNCTIONS") == ("multi_a", "sortedmulti_a") and "name not in _PARSERS and context in _MINISCRIPT_CONTEXTS" in txt, pe.where(), "other names are miniscript only inside wsh() or a tr() leaf")
     rep.ob(rule, "unknown_function_refused", any(c.op == "not in" and c.subject == "name" for c in refusal_constraints(ctx, pe)), pe.where(), "an unknown function is refused")
@@ -114,7 +115,7 @@ def rule_is_mine(ctx: Ctx, rep: Report) -> None:
     """C14.is_mine: recognition is whole-script equality over every branch and index."""
     rule = "C14.is_mine"
     io = ctx.func(f"{DS}.Descriptor.index_of")
-    txt = norm(io.node)
+    txt = PT.text(io)
     from sa.canon import expand
     # the loops: an outer one over range(<last> + 1), an inner one over self.script_pub_keys(<outer var>, ...)
     loops = [(n.target, n.iter, n) for n in own_nodes(io.node) if isinstance(n, (ast.For, ast.comprehension))]
@@ -146,7 +147,7 @@ def rule_is_mine(ctx: Ctx, rep: Report) -> None:
     rets = [n for n in own_nodes(io.node) if isinstance(n, ast.Return)]
     rep.ob(rule, "index_of:not_mine_is_None", any(isinstance(r.value, ast.Constant) and r.value.value is None for r in rets), io.where(), "no match answers None")
     po = ctx.func(f"{WA}.RangedWallet.position_of")
-    txt = norm(po.node)
+    txt = PT.text(po)
     rep.ob(rule, "position_of:whole_script", "self._script_pub_key(branch, index).script == script" in txt, po.where(), "whole-script equality")
     rep.ob(rule, "position_of:all_branches", "for branch in self.branches" in txt and "for index in range(last_index + 1)" in txt, po.where(), "every branch, indexes 0..last_index inclusive")
     for fi in (io, po):
@@ -175,7 +176,7 @@ def rule_ranges(ctx: Ctx, rep: Report) -> None:
     where = "btclib/descriptors/descriptors.py:1"
     rep.ob(rule, "multi_a_keys", ctx.const(DS, "_MAX_MULTI_A_KEYS") == 999, where, "multi_a <= 999 keys")
     pm = ctx.func(f"{DS}._parse_multi")
-    txt = norm(pm.node)
+    txt = PT.text(pm)
     rep.ob(rule, "multi:threshold", "threshold" in txt and bool(refusal_constraints(ctx, pm)), pm.where(), f"refusals {[c.show() for c in refusal_constraints(ctx, pm)][:4]}")
     ai = ctx.func(f"{DS}.at_index")
     g = ctx.cfg(ai)
